@@ -126,13 +126,36 @@ pub struct Found {
 }
 
 pub struct CheckResult {
+    /// indices into `CheckOpts.known` of the listed findings that were met (with how often)
+    pub known_hits: Vec<(usize, u64)>,
     pub violations: Vec<Found>,
     pub harness_errors: Vec<String>,
     pub evidence: J,
     pub determinism_mismatches: u64,
 }
 
+/// a finding listed in known_findings.txt: violations it matches are reported as
+/// KNOWN-FINDING and do not stop the search
+#[derive(Clone, Debug)]
+pub struct Known {
+    pub prop: String,
+    pub oracle: String,
+    pub needle: String,
+    pub text: String,
+}
+
+impl Known {
+    pub fn matches(&self, prop: Prop, v: &crate::oracle::Violation) -> bool {
+        self.prop == prop.id() && self.oracle == v.oracle && v.detail.contains(&self.needle)
+    }
+}
+
+/// the listed findings, for the minimiser (a candidate that turns the violation into a
+/// listed one is not a smaller instance of the same violation)
+pub static KNOWN: std::sync::OnceLock<Vec<Known>> = std::sync::OnceLock::new();
+
 pub struct CheckOpts {
+    pub known: Vec<Known>,
     /// where replay files go and how a violation line is spelled (needed by the memory
     /// watchdog, which has to report and exit on its own)
     pub replay_dir: String,
@@ -158,6 +181,8 @@ pub fn check(opts: &CheckOpts) -> CheckResult {
     let stop_above = Arc::new(AtomicU64::new(u64::MAX));
     let truncated = Arc::new(AtomicBool::new(false));
     let found: Arc<Mutex<Vec<Found>>> = Arc::new(Mutex::new(vec![]));
+    let known: Arc<Vec<Known>> = Arc::new(opts.known.clone());
+    let known_hits: Arc<Mutex<Vec<u64>>> = Arc::new(Mutex::new(vec![0; opts.known.len()]));
     let harness: Arc<Mutex<Vec<String>>> = Arc::new(Mutex::new(vec![]));
     let started = Instant::now();
     let beats: Arc<Vec<Beat>> = Arc::new(
@@ -240,6 +265,8 @@ pub fn check(opts: &CheckOpts) -> CheckResult {
         let stop_above = stop_above.clone();
         let truncated = truncated.clone();
         let found = found.clone();
+        let known = known.clone();
+        let known_hits = known_hits.clone();
         let harness = harness.clone();
         let beats = beats.clone();
         let prop = opts.prop;
@@ -271,7 +298,13 @@ pub fn check(opts: &CheckOpts) -> CheckResult {
                             continue;
                         }
                         stats.add(i, &case, &ev);
-                        if ev.violation.is_some() {
+                        if let Some(v) = &ev.violation {
+                            // a listed finding is noted and the search goes on, so that a
+                            // different violation of the same property is still found
+                            if let Some(k) = known.iter().position(|k| k.matches(prop, v)) {
+                                known_hits.lock().unwrap()[k] += 1;
+                                continue;
+                            }
                             stop_above.fetch_min(i, Ordering::Relaxed);
                             found.lock().unwrap().push(Found {
                                 index: i,
@@ -357,7 +390,16 @@ pub fn check(opts: &CheckOpts) -> CheckResult {
         violations.len(),
     );
     let harness_errors = std::mem::take(&mut *harness.lock().unwrap());
+    let known_hits: Vec<(usize, u64)> = known_hits
+        .lock()
+        .unwrap()
+        .iter()
+        .enumerate()
+        .filter(|(_, n)| **n > 0)
+        .map(|(i, n)| (i, *n))
+        .collect();
     CheckResult {
+        known_hits,
         violations,
         harness_errors,
         evidence,
@@ -670,7 +712,13 @@ fn same_violation(prop: Prop, case: &Case, oracle: &str, budget: &mut u32) -> bo
         && ev
             .violation
             .as_ref()
-            .map(|v| v.oracle == oracle)
+            .map(|v| {
+                v.oracle == oracle
+                    && !KNOWN
+                        .get()
+                        .map(|ks| ks.iter().any(|k| k.matches(prop, v)))
+                        .unwrap_or(false)
+            })
             .unwrap_or(false)
 }
 
